@@ -46,10 +46,27 @@ func VH_C11_DetachedArray() {
 	}
 	// stale handle: the attached handle or one obtained by lookup
 	h := child
-	if vhChoose("handle", 2) == 1 {
+	switch vhChoose("handle", 3) {
+	case 1:
 		v, err := parent.Get(childIdx)
 		vhAssert(err == nil, "setup: lookup child")
 		u, _ := unwrapValue(v)
+		h = u.(*Array)
+	case 2: // the handle yielded by mutable iteration over the parent
+		pos := uint64(0)
+		var got Value
+		ierr := parent.Iterate(func(v Value) (bool, error) {
+			if pos == childIdx {
+				got = v
+			}
+			pos++
+			return true, nil
+		})
+		vhAssert(ierr == nil && got != nil, "setup: iteration yields the child")
+		if got == nil {
+			return
+		}
+		u, _ := unwrapValue(got)
 		h = u.(*Array)
 	}
 	// detach: remove, overwrite, or bulk pop of the whole parent
@@ -207,10 +224,24 @@ func VH_C11_DetachedFromMap() {
 	_, err = parent.Set(vhCompare, vhHip, other, vElem{tag: 77, size: vhRange32("vsz", 1, 40)})
 	vhAssert(err == nil, "sibling entry")
 	h := child
-	if vhChoose("handle", 2) == 1 {
+	switch vhChoose("handle", 3) {
+	case 1:
 		v, err := parent.Get(vhCompare, vhHip, key)
 		vhAssert(err == nil, "lookup child")
 		h = v.(*Array)
+	case 2: // the handle yielded by mutable iteration over the parent
+		var got Value
+		ierr := parent.Iterate(vhCompare, vhHip, func(k, v Value) (bool, error) {
+			if kk, ok := k.(vKey); ok && kk.id == key.id {
+				got = v
+			}
+			return true, nil
+		})
+		vhAssert(ierr == nil && got != nil, "setup: iteration yields the child")
+		if got == nil {
+			return
+		}
+		h = got.(*Array)
 	}
 	// detach
 	var detached Storable
